@@ -97,6 +97,27 @@ def cases(tier, seed):
                         for usebuf in (False, True):
                             out.append({'d': d, 'fam': fam, 'layouts': L, 'nprocs': nprocs, 'shape': list(shape),
                                         'dtype': dtype, 'buf': usebuf, 'cost': npairs * (nprocs[0] * (nprocs[1] if len(nprocs) > 1 else 1))})
+    # lopsided shapes: one extent much longer than the others, so that the buffer needed by a single swap
+    # (block of the long dimension x process count) exceeds every layout's own block; only layout sets with
+    # few pairs, otherwise another pair masks an undersized bufferSize
+    from pgv.lay import perms, name_of
+    P3 = perms(3)
+    lop3 = [(9, 2, 3), (2, 9, 3), (3, 2, 9), (9, 9, 2), (2, 3, 9), (9, 3, 3)] + ([(17, 2, 3), (2, 3, 17), (3, 17, 2)] if tier == 'thorough' else [])
+    for sub in itertools.combinations(P3, 2):
+        L = {name_of(p): list(p) for p in sub}
+        for nprocs in ([2], [3], [1, 2], [2, 1], [2, 2], [1, 3], [3, 1]):
+            need = _needs(L, nprocs)
+            for shape in lop3:
+                if all(x >= n for x, n in zip(shape, need)):
+                    for usebuf in (False, True):
+                        out.append({'d': 3, 'fam': 'lop2', 'layouts': L, 'nprocs': nprocs, 'shape': list(shape), 'dtype': 'float64', 'buf': usebuf, 'cost': 8})
+    lop4 = [(5, 8, 6, 30), (21, 21, 3, 16), (3, 4, 13, 3), (13, 3, 3, 4), (3, 13, 4, 13)]
+    for nprocs in [[1, 3], [2, 2], [3, 1], [2, 3], [1, 2]] + ([[1, 4], [4, 1], [3, 3]] if tier == "thorough" else []):
+        need = _needs(PHYS, nprocs)
+        for shape in lop4:
+            if all(x >= n for x, n in zip(shape, need)):
+                for usebuf in (False, True):
+                    out.append({'d': 4, 'fam': 'lop-phys', 'layouts': dict(PHYS), 'nprocs': nprocs, 'shape': list(shape), 'dtype': 'float64', 'buf': usebuf, 'cost': 60})
     return out
 
 
